@@ -124,9 +124,10 @@ def check_splitters(S, r5):
     targets = [f for f in S.fns if f.body is not None and (f.file.endswith("analysis/type_resolver.rs") or f.name in ("extract_type_names_recursive", "add_types_prefix"))]
     for f in targets:
         for e in walk_block(f.body):
-            if e.get("k") == "mcall" and e["method"] in ("find", "rfind", "split", "splitn", "split_once", "rsplit", "rsplit_once", "split_terminator") and e["args"]:
-                a = e["args"][0]
-                v = a["lit"]["v"] if a.get("k") == "lit" else None
+            if e.get("k") == "mcall" and e["method"] in ("find", "rfind", "split", "splitn", "rsplitn", "split_once", "rsplit", "rsplit_once", "split_terminator") and e["args"]:
+                # the pattern is the first argument, for splitn / rsplitn the second (`inner.splitn(2, ',')`)
+                a = e["args"][1] if e["method"] in ("splitn", "rsplitn") and len(e["args"]) > 1 else e["args"][0]
+                v = a["lit"]["v"] if a.get("k") == "lit" and isinstance(a["lit"].get("v"), str) else None
                 if v == ",":
                     r5.bad(V(r5.id, "%s::%s" % (f.owner, f.name), "naive-comma:%s(',') on %s" % (e["method"], expr_text(e["recv"])),
                              "%s(',') splits type text at the first/every comma regardless of nesting" % e["method"], f.file, e["ln"]))
@@ -371,6 +372,12 @@ def check(ctx):
               "split(',') / split_once(',') on type text in the type resolver or the type-name harvester",
               "a first-comma split cuts `Result<HashMap<String, User>, E>` at the inner comma: half a generic argument list leaks into the output")
     check_splitters(S, r5)
+    # ... and the dispatcher knows a constructor by its literal prefix, one delimiter pair per constructor (shared with C07-D4 / C09-D4 / C02-D4)
+    from c07 import check_type_text_splitting
+    n_b = len(r5.violations)
+    check_type_text_splitting(P, r5)
+    for v_ in r5.violations[n_b:]:
+        v_.rule = r5.id
     r5.require_floor(4, "splitter sites")
     rules.append(r5)
 
